@@ -5,12 +5,46 @@ use crate::{Ctx, Recorder};
 use serde_json::json;
 
 pub fn run(ctx: &Ctx, rec: &mut Recorder) -> Result<(), String> {
-    // ---- sequential, exhaustive up to length L
-    let max_len = ctx.qt(7usize, 9usize);
+    // ---- sequential, exhaustive up to length L: 5 keys (so that every capacity
+    // 0..4 can be filled and overflowed) and, deeper, 3 keys
+    let (len5, len3) = ctx.qt((7usize, 7usize), (8usize, 9usize));
     let mut st = SeqStats::default();
-    for len in 0..=max_len {
-        let mine = |i: u64| ctx.mine(i);
-        enumerate(len, &mine, &mut st);
+    let t_phase = std::time::Instant::now();
+    let mine = |i: u64| ctx.mine(i);
+    // 5 keys: every capacity and both cache types up to len5-1; at len5 the two
+    // capacities that need 5 keys to overflow (3, 4), LruCache only (ObjectCache
+    // delegates to it and is covered by the shorter and the random sequences)
+    for len in 0..len5 {
+        enumerate(len, 5, &mine, &mut st);
+    }
+    enumerate_caps(len5, 5, &[3, 4], false, &mine, &mut st);
+    for len in len5..=len3 {
+        enumerate(len, 3, &mine, &mut st);
+    }
+    eprintln!("c29 enumerated {} sequences in {:?}", st.sequences, t_phase.elapsed());
+    // ---- sequential, random and long: up to 8 keys, capacity up to 6
+    let nrand = ctx.qt(40_000u64, 2_000_000u64) / ctx.nshards as u64;
+    let mut lr = Lcg(ctx.seed ^ 0xABCDEF ^ ((ctx.shard as u64) << 40) | 1);
+    for _ in 0..nrand {
+        let nkeys = 2 + lr.below(7) as usize;
+        let cap = lr.below(7) as usize;
+        let len = 8 + lr.below(50) as usize;
+        let codes: Vec<usize> = (0..len).map(|_| { let x = lr.below(100); if x < 3 { 2 * nkeys } else if x < 8 { 2 * nkeys + 1 } else { lr.below(2 * nkeys as u64) as usize } }).collect();
+        let mut ev = false;
+        let r1 = run_sequence(LruUT(oxidize_pdf::memory::LruCache::new(cap)), cap, &codes, nkeys, &mut ev);
+        let r2 = run_sequence(ObjUT(oxidize_pdf::memory::ObjectCache::new(cap)), cap, &codes, nkeys, &mut ev);
+        st.sequences += 2;
+        st.steps += 2 * (len + nkeys) as u64;
+        if ev {
+            st.with_eviction += 1;
+        }
+        if st.violation.is_none() {
+            if let Err(d) = r1 {
+                st.violation = Some(("C29|sequential|LruCache|differs_from_reference_lru".into(), d));
+            } else if let Err(d) = r2 {
+                st.violation = Some(("C29|sequential|ObjectCache|differs_from_reference_lru".into(), d));
+            }
+        }
     }
     rec.eval_only(st.sequences);
     rec.count_n("sequential_sequences", st.sequences);
@@ -24,11 +58,13 @@ pub fn run(ctx: &Ctx, rec: &mut Recorder) -> Result<(), String> {
     if let Some((sig, d)) = st.violation.take() {
         rec.violation(sig, d.clone(), json!({"detail": d}));
     }
-    rec.extra.insert("sequential_max_len".into(), json!(max_len));
+    rec.extra.insert("sequential_max_len_5keys".into(), json!(len5));
+    rec.extra.insert("sequential_max_len_3keys".into(), json!(len3));
     rec.extra.insert("exhaustive_sequential".into(), json!(true));
 
+    eprintln!("c29 sequential total {:?}", t_phase.elapsed());
     // ---- concurrent histories
-    let nhist = ctx.qt(200_000u64, 5_000_000u64) / ctx.nshards as u64;
+    let nhist = ctx.qt(30_000u64, 4_000_000u64) / ctx.nshards as u64;
     let mut lcg = Lcg(ctx.seed.wrapping_mul(0x9E3779B97F4A7C15) ^ (ctx.shard as u64) << 32 | 1);
     let mut overlapped = 0u64;
     let mut max_nodes = 0u64;
